@@ -444,6 +444,8 @@ func (x *SExec) apply(i int, op SOp) *Fail {
 		}
 	case "snapshot":
 		return x.doSnapshot(i, op)
+	case "ctlresize":
+		return x.doCtlResize(i, op)
 	case "race":
 		return x.doRace(i, op)
 	case "rebuild":
@@ -1673,6 +1675,86 @@ finished:
 			return sfail("rebuild|snapshot-differs", fmt.Sprintf("snapshot %s differs between source n%d and promoted n%d", snap, src, n), "C07")
 		}
 		x.Labels["rebuild:snapshot-compared"]++
+	}
+	return nil
+}
+
+// ---- C16: resize through the controller -----------------------------------------
+
+// doCtlResize: op.N = new size in blocks, op.Name = volume name given ("" = the right one), op.Str = unparsable size string.
+func (x *SExec) doCtlResize(i int, op SOp) *Fail {
+	st := x.St
+	old := x.Live.size()
+	name := "vol"
+	if op.Name != "" {
+		name = op.Name
+	}
+	arg := strconv.FormatInt(op.N*Blk, 10)
+	if op.Str != "" {
+		arg = op.Str
+	}
+	if x.listed() == 0 {
+		return nil
+	}
+	err := st.C.Resize(name, arg)
+	x.tracef("controller resize name=%s size=%s (old %d) -> %v", name, arg, old, err)
+	valid := op.Name == "" && op.Str == "" && op.N*Blk > old
+	if !valid {
+		x.Labels["ctlresize:refused"]++
+		if err == nil {
+			why := "unparsable size"
+			switch {
+			case op.Name != "":
+				why = "wrong volume name"
+			case op.Str == "" && op.N*Blk < old:
+				why = "shrink"
+			case op.Str == "" && op.N*Blk == old:
+				why = "same size"
+			}
+			return sfail("ctlresize|"+why+"|accepted", fmt.Sprintf("Controller.Resize(%s,%s) accepted (%s), old size %d", name, arg, why, old), "C16")
+		}
+		if got := st.C.VerifState().Size; got != old {
+			return sfail("ctlresize|refused-but-size-changed", fmt.Sprintf("refused resize changed the controller size %d -> %d", old, got), "C16")
+		}
+		for j, nd := range st.Nodes {
+			if x.Mode[j] == types.RW || x.Mode[j] == types.WO {
+				if r := nd.S.Replica(); r != nil && r.Info().Size != old {
+					return sfail("ctlresize|refused-but-replica-resized", fmt.Sprintf("refused resize changed n%d's size to %d", j, r.Info().Size), "C16")
+				}
+			}
+		}
+		return nil
+	}
+	if err != nil {
+		return sfail("ctlresize|grow|refused", fmt.Sprintf("Controller.Resize(%s,%s) refused: %v", name, arg, err), "C16")
+	}
+	x.Labels["ctlresize:grow"]++
+	newSize := op.N * Blk
+	x.Live.Grow(newSize)
+	if got := st.C.VerifState().Size; got != newSize {
+		return sfail("ctlresize|controller-size", fmt.Sprintf("controller size %d after growing to %d", got, newSize), "C16")
+	}
+	for j, nd := range st.Nodes {
+		if x.Mode[j] != types.RW && x.Mode[j] != types.WO {
+			continue
+		}
+		r := nd.S.Replica()
+		if r == nil || r.Info().Size != newSize {
+			return sfail("ctlresize|replica-size", fmt.Sprintf("n%d (%s) does not report the new size %d", j, x.Mode[j], newSize), "C16")
+		}
+		vm, err := readVolMeta(nd.Dir)
+		if err != nil || vm.Size != newSize {
+			return sfail("ctlresize|replica-size-not-persisted", fmt.Sprintf("n%d volume.meta size %d, expected %d", j, vm.Size, newSize), "C16")
+		}
+	}
+	// the added range reads zero and accepts a write (the controller's range check has moved)
+	if !x.readOnly() {
+		if f := x.doWrite(i*100+1, SOp{K: "write", Off: newSize/Sec - 8, Len: 8, Seed: 1 + i%200}); f != nil {
+			return f
+		}
+	}
+	if x.nRW() > 0 {
+		return x.doRead(i*100+2, SOp{K: "read", Off: old / Sec, Len: (newSize - old) / Sec, Reps: 1})
 	}
 	return nil
 }
